@@ -255,17 +255,23 @@ impl Monitor for OrderMonitor {
 				if let Event::PaymentClaimed { payment_hash, .. } = ev {
 					v.rep.count("c09_o2_rule_evaluations");
 					let mut found = false;
+					let mut durable_somewhere = false;
+					let mut first_incomplete: Option<u64> = None;
 					for ((n, _), s) in self.st.iter() {
 						if n != node {
 							continue;
 						}
 						if let Some((ids, first_step)) = s.preimage_updates.get(&payment_hash.0) {
 							found = true;
-							// the first update that made the preimage durable on this channel must be complete
-							// (the library may later repeat the preimage in further updates of the same channel)
+							// the first update that made the preimage durable on a channel must be complete (the library
+							// may later repeat the preimage in further updates of the same channel). For a payment
+							// received over several channels the event depends on the preimage being durable in one of
+							// the monitors: the claim on the others is replayed from that monitor after a crash.
 							if let Some(id) = ids.iter().min() {
 								if s.incomplete.contains(id) {
-									v.violation("C09", "O2-dependency", "PaymentClaimed emitted while the PaymentPreimage monitor update is incomplete", format!("node{} update {}", node, id));
+									first_incomplete.get_or_insert(*id);
+								} else {
+									durable_somewhere = true;
 								}
 							}
 							let mut k = [0u8; 32];
@@ -282,6 +288,8 @@ impl Monitor for OrderMonitor {
 					}
 					if !found {
 						v.violation("C09", "O2-dependency", "PaymentClaimed emitted but no PaymentPreimage update was ever handed to chain::Watch", format!("node{} step {}", node, step));
+					} else if !durable_somewhere {
+						v.violation("C09", "O2-dependency", "PaymentClaimed emitted while the PaymentPreimage monitor update is incomplete", format!("node{} update {:?}", node, first_incomplete));
 					}
 				}
 				if let Event::ChannelClosed { channel_id, reason, .. } = ev {
